@@ -240,4 +240,9 @@ def run(chk):
                         "that the traced object's method of a given name is the same definition regular mode resolves (both use Globals.get_instance_func)"]
     chk.assumptions += ["regular-mode dispatch is as proved in C04 (_synthesize_binary, operator tables)",
                         "functools.wraps / capture_guppy_errors / hide_trace decorators are transparent for dispatch (they only rewrap exceptions)"]
+    # calls to Guppy functions: after a call that borrowed (parts of) a comptime value, the caller's
+    # Python-side objects carry the callee's updates — every component gets the returned wire,
+    # copyable or not (shared obligations with C22)
+    from .C22 import upv_obligations
+    upv_obligations(chk, tag="calls-to-guppy-functions:")
     chk.use_engine(e)
